@@ -122,4 +122,52 @@ theorem div_div_nat (a c b d : Nat) :
         congr 1
         field_simp
 
+/-- n·(a + b + c − a_r) for the ETS denominator: positive unless forecast and observation are the same constant -/
+theorem ets_den_pos (a b c d : Nat) (h : ¬ (b = 0 ∧ c = 0 ∧ (a = 0 ∨ d = 0))) :
+    (0 : Rat) < (b : Rat) * b + c * c + a * b + a * c + b * c + ((a : Rat) + b + c) * d := by
+  have ha0 : (0 : Rat) ≤ a := by positivity
+  have hb0 : (0 : Rat) ≤ b := by positivity
+  have hc0 : (0 : Rat) ≤ c := by positivity
+  have hd0 : (0 : Rat) ≤ d := by positivity
+  rcases Nat.eq_zero_or_pos b with hb | hb
+  · rcases Nat.eq_zero_or_pos c with hc | hc
+    · have ha : 0 < a := by
+        rcases Nat.eq_zero_or_pos a with ha | ha
+        · exact absurd ⟨hb, hc, Or.inl ha⟩ h
+        · exact ha
+      have hd : 0 < d := by
+        rcases Nat.eq_zero_or_pos d with hd | hd
+        · exact absurd ⟨hb, hc, Or.inr hd⟩ h
+        · exact hd
+      have ha' : (0 : Rat) < a := by exact_mod_cast ha
+      have hd' : (0 : Rat) < d := by exact_mod_cast hd
+      have : (0 : Rat) < (a : Rat) * d := by positivity
+      nlinarith [mul_nonneg ha0 hb0, mul_nonneg hc0 hc0, mul_nonneg hb0 hb0, mul_nonneg ha0 hc0,
+        mul_nonneg hc0 hd0, mul_nonneg hb0 hd0, mul_nonneg hb0 hc0]
+    · have hc' : (0 : Rat) < c := by exact_mod_cast hc
+      have : (0 : Rat) < (c : Rat) * c := by positivity
+      nlinarith [mul_nonneg ha0 hb0, mul_nonneg ha0 hd0, mul_nonneg hb0 hb0, mul_nonneg ha0 hc0,
+        mul_nonneg hc0 hd0, mul_nonneg hb0 hd0, mul_nonneg hb0 hc0]
+  · have hb' : (0 : Rat) < b := by exact_mod_cast hb
+    have : (0 : Rat) < (b : Rat) * b := by positivity
+    nlinarith [mul_nonneg ha0 hb0, mul_nonneg ha0 hd0, mul_nonneg hc0 hc0, mul_nonneg ha0 hc0,
+      mul_nonneg hc0 hd0, mul_nonneg hb0 hd0, mul_nonneg hb0 hc0]
+
+/-- the HSS denominator (a+c)(c+d) + (a+b)(b+d): positive on the same tables -/
+theorem hss_den_pos (a b c d : Nat) (h : ¬ (b = 0 ∧ c = 0 ∧ (a = 0 ∨ d = 0))) :
+    (0 : Rat) < ((a : Rat) + c) * (c + d) + ((a : Rat) + b) * (b + d) := by
+  have := ets_den_pos a b c d h
+  have ha0 : (0 : Rat) ≤ a := by positivity
+  have hb0 : (0 : Rat) ≤ b := by positivity
+  have hc0 : (0 : Rat) ≤ c := by positivity
+  have hd0 : (0 : Rat) ≤ d := by positivity
+  nlinarith [mul_nonneg ha0 hd0, mul_nonneg ha0 hb0, mul_nonneg ha0 hc0, mul_nonneg hb0 hd0,
+    mul_nonneg hc0 hd0, sq_nonneg ((b : Rat) - c)]
+
+/-- a table with a positive ETS/HSS denominator is not empty -/
+theorem total_ne_zero (a b c d : Nat) (h : ¬ (b = 0 ∧ c = 0 ∧ (a = 0 ∨ d = 0))) :
+    (a : Rat) + d + b + c ≠ 0 := by
+  have : a + d + b + c ≠ 0 := by omega
+  exact_mod_cast this
+
 end SV.Lemmas.C09Zero
